@@ -42,9 +42,10 @@ type AttemptPlan struct {
 	SetErrVariant  int  // set-error: shape of the master's reply
 	IdleAt         int  // with IdleFor > 0: the master falls silent for IdleFor (fake clock) once IdleAt packets of the dump have been delivered, then goes on
 	IdleFor        time.Duration
-	SkipRefused    bool // the application skips the transaction its handler refused in the previous attempt: SetBinlogPosition(refused.NextPosition)
-	HandshakeCut   int  // handshake-fin: bytes of the greeting that still arrive
-	ErrorCalls     int  // how many times Error() is called after Stream returned (>=1)
+	SlowHandler    time.Duration // > 0: one handler call of the attempt takes this long (fake clock) before it returns
+	SkipRefused    bool          // the application skips the transaction its handler refused in the previous attempt: SetBinlogPosition(refused.NextPosition)
+	HandshakeCut   int           // handshake-fin: bytes of the greeting that still arrive
+	ErrorCalls     int           // how many times Error() is called after Stream returned (>=1)
 	SkipErrorCalls bool
 	StallAfterStop bool // after a cancel / handler / mapper cause the network delivers nothing more
 	ImmediateError bool // the caller calls Error() right after Stream returns, on the same goroutine
@@ -58,6 +59,7 @@ type AttemptPlan struct {
 
 // Scenario is a complete simulated run.
 type Scenario struct {
+	Bystander    bool  // another Streamer with the same server id streams from a master of its own in the same process, all the time
 	ValuesOnly   bool  // C08: the consumer keeps only the delivered value slices, drops the Transaction, and the garbage collector runs between deliveries
 	StartHigh    int64 // added to the start offset given to SetBinlogPosition (a multiple of 2^32)
 	Hist         *History
@@ -120,22 +122,25 @@ type Run struct {
 	sch  *Stream
 	key  string
 
-	mu            sync.Mutex
-	seq           int
-	att           *AttemptResult
-	attIdx        int
-	streamActive  bool
-	handlerActive int
-	parkedH       *HandlerCall
-	parkedM       *MapperCall
-	calls         []*HandlerCall
-	Rewound       []rewind
-	gcRounds      int
-	mapperCalls   []*MapperCall
-	master        *simMaster
-	conn          *simConn
-	dialPlan      stopKind
-	dialCount     int
+	mu              sync.Mutex
+	seq             int
+	att             *AttemptResult
+	attIdx          int
+	streamActive    bool
+	handlerActive   int
+	parkedH         *HandlerCall
+	parkedM         *MapperCall
+	calls           []*HandlerCall
+	Rewound         []rewind
+	bystanderLog    *MasterLog
+	bystanderCancel context.CancelFunc
+	bystanderDone   chan struct{}
+	gcRounds        int
+	mapperCalls     []*MapperCall
+	master          *simMaster
+	conn            *simConn
+	dialPlan        stopKind
+	dialCount       int
 
 	streamer *gobinlog.Streamer
 	cancel   context.CancelFunc
@@ -561,6 +566,9 @@ func (r *Run) controller() {
 		sc.StepCap = 30000
 	}
 	r.newStreamer(sc.Start)
+	if sc.Bystander {
+		r.startBystander()
+	}
 	for i := range sc.Attempts {
 		plan := sc.Attempts[i]
 		if plan.FreshStreamer {
@@ -801,6 +809,7 @@ func (r *Run) runAttempt(idx int, plan AttemptPlan) bool {
 	r.mu.Unlock()
 	immediateDone := false
 	idled := false
+	slowDone := false
 	call := r.launch(func() {
 		err := func() (err error) {
 			if plan.EnvPanic {
@@ -859,6 +868,18 @@ func (r *Run) runAttempt(idx int, plan AttemptPlan) bool {
 				}
 				att.MidPacket = mid
 				att.PacketsAtCause = r.master.packetsDelivered()
+				if plan.Stop.streamComposed() && name == plan.Stop.String() {
+					// noted at the first quiescent point after the packet was delivered, or
+					// after Stream is already back: the canonical value is the packet's place
+					att.PacketsAtCause = r.master.causeAt + 1
+					att.MidPacket = false
+					switch plan.Stop {
+					case stopERR, stopEOF, stopInvalidEvent, stopUnsupportedEvent, stopBadSeq:
+						// (what the reader and the handler were doing when the note was taken
+						// depends on whether Stream was already back: not canonical either)
+						att.ReaderHolding, att.HandlerParked = false, false
+					}
+				}
 			}
 		}
 		causeFired = true
@@ -1134,6 +1155,12 @@ func (r *Run) runAttempt(idx int, plan AttemptPlan) bool {
 				n := conn.deliver(r.segment(&plan, wire, dumping))
 				_ = n
 			case 1:
+				if plan.SlowHandler > 0 && !slowDone && !sc.ReadTimeout && r.sch.Chance(1, 2) {
+					// a consumer that takes its time with one transaction (half a minute, ten
+					// minutes): the reader sits on the next event all the while
+					slowDone = true
+					time.Sleep(plan.SlowHandler)
+				}
 				r.releaseHandler(nil)
 			case 2:
 				r.releaseMapper(mapperVerdict{})
@@ -1209,6 +1236,7 @@ func (r *Run) runAttempt(idx int, plan AttemptPlan) bool {
 			if r.master.packetsDelivered() > r.master.causeAt {
 				att.Causes = append(att.Causes, plan.Stop.String())
 				att.CauseStep = r.steps
+				att.PacketsAtCause = r.master.causeAt + 1
 			}
 		}
 	}
@@ -1368,7 +1396,91 @@ func (r *Run) abortAttempt() {
 	}
 }
 
+// ---------------------------------------------------------------------------
+// bystander: a second Streamer of the same process. It has the same server id
+// (legal: it talks to another master), a master of its own that serves the same
+// history free-running, a handler that accepts everything. It is started before
+// the first attempt, reads its whole stream, and then sits in its dump until the
+// end of the run. Whatever the library shares between Streamer objects shows up
+// in the requests and deliveries of the Streamer under test.
+
+type bystanderMapper struct{ h *History }
+
+func (b bystanderMapper) MysqlTable(name gobinlog.MysqlTableName) (gobinlog.MysqlTable, error) {
+	var td *TableDef
+	for _, t := range append(append([]*TableDef{}, b.h.retired...), b.h.Tables...) {
+		if t.DB == name.DbName && t.Name == name.TableName {
+			td = t
+		}
+	}
+	if td == nil {
+		return nil, fmt.Errorf("sim: unknown table %s.%s", name.DbName, name.TableName)
+	}
+	st := simTable{name: name}
+	for i := range td.Cols {
+		st.cols = append(st.cols, simColumn{td.Cols[i].Name, td.Cols[i].Unsigned})
+	}
+	return st, nil
+}
+
+func (r *Run) dialBystander(ctx context.Context) (net.Conn, error) {
+	m := &simMaster{h: r.sc.Hist}
+	c := newSimConn(m)
+	c.auto = true
+	m.greet()
+	c.mu.Lock()
+	c.flushAuto()
+	c.mu.Unlock()
+	r.mu.Lock()
+	r.bystanderLog = &m.log
+	r.mu.Unlock()
+	return c, nil
+}
+
+func (r *Run) startBystander() {
+	runsMu.Lock()
+	runsByKey[r.key+"-bystander"] = r
+	runsMu.Unlock()
+	s, err := gobinlog.NewStreamer("u:p@sim("+r.key+"-bystander)/db", r.sc.ServerID, bystanderMapper{r.sc.Hist})
+	if err != nil {
+		r.HarnessErr = "bystander: " + err.Error()
+		return
+	}
+	h := r.sc.Hist
+	s.SetBinlogPosition(gobinlog.Position{Filename: h.Files[0].Name, Offset: 4})
+	ctx, cancel := context.WithCancel(context.Background())
+	r.bystanderCancel = cancel
+	r.bystanderDone = make(chan struct{})
+	go func() {
+		defer close(r.bystanderDone)
+		s.Stream(ctx, func(*gobinlog.Transaction) error { return nil })
+		s.Error()
+	}()
+	synctest.Wait() // it has read everything its master had and waits for more
+}
+
+func (r *Run) stopBystander() {
+	if r.bystanderCancel == nil {
+		return
+	}
+	r.mu.Lock()
+	r.logYield, r.debugYield = false, false
+	r.mu.Unlock()
+	r.bystanderCancel()
+	synctest.Wait()
+	r.releaseAllLogs()
+	synctest.Wait()
+	select {
+	case <-r.bystanderDone:
+	default:
+	}
+	runsMu.Lock()
+	delete(runsByKey, r.key+"-bystander")
+	runsMu.Unlock()
+}
+
 func (r *Run) finalCleanup() {
+	r.stopBystander()
 	if r.sc.ValuesOnly {
 		for k := 0; k < 2; k++ {
 			runtime.GC()
